@@ -1,6 +1,7 @@
 // C17 (number printing): the REAL numeric-constant branch of ArithLogic::termToSMT2StringImpl. The symbol name of a numeric
 // constant is the canonical text ArithLogic::mkConst stores ("n", "-n", "n/d", "-n/d"); what is printed for it must be
-// one of the SMT-LIB shapes  N | (- N) | (/ N D) | (/ (- N) D)  and must denote the SAME rational, sign included.
+// an SMT-LIB constant term  N | (- N) | (/ N D) | (/ (- N) D)  (a negated divisor is read too) and must denote the SAME
+// rational, sign included.
 // Real: termToSMT2StringImpl, stringToRational, normalize, FastRational(const char*), sign/negate/get_str/print_, and the
 // std::string code they use. Models: GMP (rt/gmp_model.c + text interface in print_const_rt.c), asprintf (print_const_rt.c),
 // the iostream objects (append-to-buffer models below), malloc (fresh fixed-size buffers, print_const_rt.c).
@@ -159,7 +160,9 @@ static bool read_constant(const char * t, int n, bool * neg, uint16_t * num, uin
         *frac = true;
         if (!read_signed(t, n, &i, neg, num)) return false;
         if (!read_lit(t, n, &i, " ")) return false;
-        if (!read_numeral(t, n, &i, den) || *den == 0) return false;
+        bool dneg = false;                        // a reader also accepts a negated numeral as divisor: (/ N (- D)) denotes -N/D
+        if (!read_signed(t, n, &i, &dneg, den) || *den == 0) return false;
+        if (dneg) *neg = !*neg;
         if (!read_lit(t, n, &i, ")")) return false;
         return i == n;
     }
@@ -176,19 +179,20 @@ static bool read_constant(const char * t, int n, bool * neg, uint16_t * num, uin
 #endif
 #define OUTMAX 15
 
-extern "C" void h_print_const() {
-    // the constant n/d in lowest terms, as ArithLogic::mkConst names it: FastRational::get_str / gmp "%Qd":  [-]N  or  [-]N/D
-    int8_t n = (int8_t)nondet_u8(); uint8_t d = nondet_u8();
-    VASSUME(n >= -MAXNUM && n <= MAXNUM && d >= 1 && d <= MAXDEN);
+static bool seen_negfrac, seen_negint, seen_posfrac, seen_int, seen_two_digit;
+extern "C" void pc_reset();        // print_const_rt.c: gives the GMP model's value slots back (one constant at a time)
+
+// prints the constant n/d (lowest terms) and reads the text back
+static void check_one(int8_t n, uint8_t d) {
     uint8_t a = (uint8_t)(n < 0 ? -n : n);
-    for (uint8_t g = 2; g <= MAXDEN; g++) VASSUME(!(a % g == 0 && d % g == 0));     // lowest terms (0 only as 0/1)
+    // the symbol name as ArithLogic::mkConst stores it: FastRational::get_str / gmp "%Qd":  [-]N  or  [-]N/D
     int p = 0;
     if (n < 0) name[p++] = '-';
     if (a >= 10) name[p++] = (char)('0' + a / 10);
     name[p++] = (char)('0' + a % 10);
     if (d != 1) { name[p++] = '/'; name[p++] = (char)('0' + d); }
     name[p] = 0;
-
+    pc_reset();
     the_term = static_cast<Pterm *>(malloc(sizeof(Pterm)));
     the_term->header.type = 0; the_term->header.has_extra = 0; the_term->header.reloced = 0; the_term->header.noscoping = 0; the_term->header.size = 0;
     the_term->id.x = 0; the_term->sym = SymRef{SYM};
@@ -208,14 +212,34 @@ extern "C" void h_print_const() {
 
     bool rneg = false, frac = false; uint16_t rn = 0, rd = 1;
     bool ok = read_constant(o, olen, &rneg, &rn, &rd, &frac);
-    VASSERT(ok, "the printed numeric constant is one of the SMT-LIB shapes N, (- N), (/ N D), (/ (- N) D) with numerals N, D (D not 0)");
+    VASSERT(ok, "the printed numeric constant is an SMT-LIB constant term: S or (/ S S) with S a numeral N or (- N), divisor not 0");
     if (!ok) return;
     // same rational: magnitude by cross-multiplication (all values < 1000), then the sign
     VASSERT((uint32_t)rn * d == (uint32_t)a * rd, "the printed numeric constant reads back with the magnitude of the constant's value");
     VASSERT(rn == 0 ? !rneg : rneg == (n < 0), "the printed numeric constant reads back with the sign of the constant's value");
-    if (n < 0 && d != 1) { VWITNESS("negative-fraction"); }
-    if (n < 0 && d == 1) { VWITNESS("negative-integer"); }
-    if (n > 0 && d != 1) { VWITNESS("positive-fraction"); }
-    if (n >= 0 && d == 1) { VWITNESS("integer"); }
-    if (a >= 10 && d != 1) { VWITNESS("two-digit-numerator"); }
+    if (n < 0 && d != 1) seen_negfrac = true;
+    if (n < 0 && d == 1) seen_negint = true;
+    if (n > 0 && d != 1) seen_posfrac = true;
+    if (n >= 0 && d == 1) seen_int = true;
+    if (a >= 10 && d != 1) seen_two_digit = true;
 }
+static void witnesses() {
+    if (seen_negfrac) { VWITNESS("negative-fraction"); }
+    if (seen_negint) { VWITNESS("negative-integer"); }
+    if (seen_posfrac) { VWITNESS("positive-fraction"); }
+    if (seen_int) { VWITNESS("integer"); }
+    if (seen_two_digit) { VWITNESS("two-digit-numerator"); }
+}
+
+// one symbolic constant n/d
+extern "C" void h_print_const() {
+    int8_t n = (int8_t)nondet_u8(); uint8_t d = nondet_u8();
+    VASSUME(n >= -MAXNUM && n <= MAXNUM && d >= 1 && d <= MAXDEN);
+    uint8_t a = (uint8_t)(n < 0 ? -n : n);
+    for (uint8_t g = 2; g <= MAXDEN; g++) VASSUME(!(a % g == 0 && d % g == 0));     // lowest terms (0 only as 0/1)
+    check_one(n, d);
+    witnesses();
+}
+#ifdef PC_ONE
+extern "C" void h_print_const_one() { check_one(-3, 4); witnesses(); }
+#endif
